@@ -473,26 +473,50 @@ func genEngNamed(r *vh.Rand) string {
 	return line
 }
 
-// genEngSizes: short runs about announced sizes: one of the first two steps answers with a size the body does not have;
-// scenario steps mostly read the body (postprocessor, answlog or debug logging).
+// genEngSizes: short runs about body sizes: one step announces a size the body does not have, its
+// neighbours are honest and often have no body at all; scenario steps mostly read the body (postprocessor, answlog or
+// debug logging).
 func genEngSizes(r *vh.Rand) string {
 	gun := r.Pick([]string{"scenario", "scenario", "scenario", "http"})
 	n, iters := r.Range(1, 4), 1
 	if gun == "scenario" {
 		iters = r.Range(1, 2)
 	}
-	at := r.Intn(2)
-	if at >= n {
-		at = 0
-	}
+	at := r.Intn(n)
 	line := fmt.Sprintf("eng %s %s 1 0 %s %d %d", gun, vh.B(r.Chance(2, 3)), genOpts(r), iters, n)
 	for i := 0; i < n; i++ {
 		if i != at {
-			st := "status ok 200 1 " + vh.HexS("ok") + " - - - -"
-			if gun == "scenario" && r.Chance(1, 2) {
-				st = "status ok 200 1 " + vh.HexS(jsonOK) + " - j:1 - -"
+			// honest neighbours, the other boundary included: no body at all (announced as 0, 204 / 304, or until close)
+			// in front of a step that reads it
+			beh, status, body := "status", 200, "ok"
+			switch r.Intn(5) {
+			case 0:
+				body = jsonOK
+			case 1:
+				body = ""
+			case 2:
+				status, body = r.PickInt([]int{204, 304}), ""
+			case 3:
+				beh, body = "nolen", r.Pick([]string{"", "ok"})
 			}
-			line += " " + st
+			tok, pp := "", "-"
+			if gun == "scenario" {
+				switch r.Intn(6) {
+				case 0, 1:
+					tok, pp = r.Pick(tokVals[:10]), "h:-"
+				case 2:
+					if body == jsonOK || body == "" {
+						pp = "j:" + vh.B(body == jsonOK)
+					} else {
+						pp = "h:-"
+					}
+				case 3:
+					pp = "x:nodeset"
+				case 4:
+					pp = fmt.Sprintf("a:0:%s", vh.HexS(r.Pick([]string{"ok", ""})))
+				}
+			}
+			line += fmt.Sprintf(" %s ok %d 1 %s %s %s - -", beh, status, vh.HexS(body), vh.HexS(tok), pp)
 			continue
 		}
 		body := r.Pick([]string{"hello", "", jsonOK, "x", htmlOK})
